@@ -240,8 +240,11 @@ func stimString(st Stim) string {
 			return []string{"true", "closes-own-subscriber", "closes-publication"}[act]
 		}
 		slow := ""
+		if st.FCl {
+			slow = ",filterClosesOwnSubscriberOnReject"
+		}
 		if st.Slow > 0 {
-			slow = fmt.Sprintf(",filterTakes=%dms", st.Slow)
+			slow += fmt.Sprintf(",filterTakes=%dms", st.Slow)
 		}
 		return fmt.Sprintf("Subscribe(cap=%d,filter=%s%s,timeout=%dms,onFiltered=%s,onTimeout=%s,optionOrder=%v)", st.Cap, fcodeCoq(st), slow,
 			tmoTicks[st.Tmo]*int(tickDur.Milliseconds()), cb(st.OnF, st.CbF), cb(st.OnT, st.CbT), optOrder(st))
